@@ -132,6 +132,12 @@ def run(ctx: Ctx) -> None:
         except Unknown:
             ok = False
     ctx.check("C11.R5", wa, "a subprotocol that was not offered raises", ok, "only a subprotocol the client offered may be selected", rs[0] if rs else ac)
+    xe = [c for c in calls(ac) if call_name(c) == "headers.append" and "sec-websocket-extensions" in norm(c)]
+    ok = len(xe) == 1 and guard_atoms(xe[0]) == {("accepts", True)} and norm(arg(xe[0], 0)) == "(b'sec-websocket-extensions', accepts)"
+    ctx.check("C11.R5", wa, "negotiated extensions announced whenever any were accepted (both carriers)", ok, "the extension header is emitted under an extra condition (e.g. only when a key exists): over HTTP/2 permessage-deflate is enabled on the server but never announced, and the client rejects the compressed frames", xe[0] if xe else ac)
+    xa = [n_ for n_ in walk_local(ac) if isinstance(n_, ast.Assign) and dotted(n_.targets[0]) == "accepts" and isinstance(n_.value, ast.Call)]
+    ok = len(xa) == 1 and norm(xa[0].value) == "server_extensions_handshake(self.extensions, extensions)" and guard_atoms(xa[0]) == {("self.extensions is not None", True)}
+    ctx.check("C11.R5", wa, "extensions negotiated from the client's offer", ok, "extension negotiation changed", xa[0] if xa else ac)
     sp = [c for c in calls(ac) if call_name(c) == "headers.append" and "sec-websocket-protocol" in norm(c)]
     ok = len(sp) == 1 and norm(arg(sp[0], 0)) == "(b'sec-websocket-protocol', subprotocol.encode())"
     ctx.check("C11.R5", wa, "selected subprotocol echoed", ok, "the chosen subprotocol must be echoed", sp[0] if sp else ac)
